@@ -494,3 +494,33 @@ def run(run):
                 "impl": lib.jsonable(impl_get_route(build_router(tables[40])[0], "GET", "/abc/x"))})
 
     run.rules.append(RULE)
+
+
+def replay(run, data):
+    """./check C16 --replay <file>: re-evaluate the recorded failing case on the implementation"""
+    import json
+    f = data.get("failure") or {}
+    case = f.get("case") or {}
+    print(json.dumps({"what": f.get("what"), "case": case}, indent=1))
+    rt = new_router()
+    if "pattern" in case and "path" in case:
+        pcs = pieces_of(case["pattern"])
+        try:
+            rx, toks = rt.patternToRegex(case["pattern"])
+        except Exception as e:      # noqa
+            print("patternToRegex raised %r" % (e,))
+            return 1
+        m = rx.match(case["path"])
+        got = None if m is None else list(m.groups())
+        exp = doc_match(pcs, case["path"]) if documented(pcs) else "outside the documented grammar"
+        print("regex %r\nrouter   -> %r\ndocumented -> %r" % (rx.pattern, got, exp))
+        return 0 if got == exp else 1
+    if "pattern" in case:
+        print("patternToRegex ->", impl_compile(rt, case["pattern"]))
+        return 1
+    if "routes" in case:
+        rt, box, reg = build_router([tuple(x) for x in case["routes"]])
+        print("registerRoutes ->", reg)
+        print("getRoute ->", impl_get_route(rt, case["method"], case["path"]), " expected ", case.get("expected"))
+        return 1
+    return 0
